@@ -195,6 +195,8 @@ func (MetaOp) GetDatabaseInfoForCollection(ctx context.Context, id int64) model.
 type MemStore struct {
 	mu sync.Mutex
 	M  map[string]api.MetaMsg
+	// Gate, when set, is called at the start of every Put (the harness uses it to hold a write)
+	Gate func(key string)
 }
 
 func (s *MemStore) Get(ctx context.Context, key string, withPrefix bool) ([]api.MetaMsg, error) {
@@ -202,6 +204,9 @@ func (s *MemStore) Get(ctx context.Context, key string, withPrefix bool) ([]api.
 }
 
 func (s *MemStore) Put(ctx context.Context, key string, value api.MetaMsg) error {
+	if s.Gate != nil {
+		s.Gate(key)
+	}
 	s.mu.Lock()
 	defer s.mu.Unlock()
 	if s.M == nil {
